@@ -101,7 +101,9 @@ Slow == {g.slow[i] : i \in 1..Len(g.slow)}
 IndependentOK == \A t \in Closure : (\A d \in TransDeps(t) \cup {t} : ~failed[d] /\ d \notin Slow)
                                           => (g.kind[t] = "a" \/ ready[t])
 \* C06 at a quiescent point of a watch run
-Blocked(t) == \E d \in TransDeps(t) \cup {t} : failed[d]
+\* a failure excuses t only if the failed execution started from the current inputs (Engine.tla, Blocked)
+Blocked(t) == \/ \E d \in TransDeps(t) : failed[d]
+              \/ failed[t] /\ sees[t] = EffIn(t)
 \* ... and was (re-)decided after every dependency it reaches through aggregates completed its own last run
 OrderOK == \A t \in Closure : (~Blocked(t) /\ g.kind[t] # "a") => stale[t] = {}
 UpToDateOK(e) == \A t \in Closure : ~Blocked(t) =>
@@ -202,7 +204,8 @@ Step(e) ==
     [] e.e = "svcfail" ->
          /\ Check("C01", <<"service-start-before-deps-ready", e.t>>, StartOK(e.t))
          /\ failed' = [failed EXCEPT ![e.t] = TRUE]
-         /\ Keep(<<g, word, ready, nStart, nSkip, inst, shells, lastRes, ver, gen, builtFrom, sees, signalled, rootErr, waited, begunOK, lastFin, stale>>)
+         /\ sees' = [sees EXCEPT ![e.t] = EffIn(e.t)]
+         /\ Keep(<<g, word, ready, nStart, nSkip, inst, shells, lastRes, ver, gen, builtFrom, signalled, rootErr, waited, begunOK, lastFin, stale>>)
     [] e.e = "send" ->
          /\ CheckAll({"C01", "C20"} \cup (IF e.k = "s" THEN {"C11"} ELSE {}), <<"aggregate-forwards-early", e.t, e.k>>,
                   (g.kind[e.t] = "a" /\ e.ty = "ok") => AggOK(e.t, e.k))
